@@ -141,6 +141,28 @@ func propC10(w *World, r *Report) {
 		creations = append(creations, creation{suffix: sx.s, pos: pos})
 	}
 	r.Check(nCreate >= 2, "G4", "file creations reachable from StartRecording (output file + scratch file)", "-", fmt.Sprint(nCreate))
+	// D1b: recorders sharing a directory (motion and test recordings can start within the same second, even on
+	// the same frame) are kept apart only by the time stamp in the temporary name: it must have sub-second resolution
+	nLayouts := 0
+	var findLayouts func(t *Term)
+	findLayouts = func(t *Term) {
+		if t.Op == "call" && strings.HasSuffix(t.Name, "time.Time.Format") && len(t.Args) == 2 {
+			if l, ok := constString(t.Args[1]); ok {
+				nLayouts++
+				frac := strings.Contains(l, ".000") || strings.Contains(l, ",000") || strings.Contains(l, ".999") || strings.Contains(l, ",999")
+				r.Check(frac, "D1", "temporary names carry a time stamp with sub-second resolution (concurrently open recordings in one directory must not share a name)", w.Pos(start.Pos()), "layout "+fmt.Sprintf("%q", l))
+			}
+		}
+		for _, a := range t.Args {
+			findLayouts(a)
+		}
+	}
+	for _, op := range ops {
+		if op.Op == "create" && nLayouts == 0 {
+			findLayouts(op.Args[0])
+		}
+	}
+	r.Check(nLayouts >= 1, "D1", "temporary names are derived from a time stamp", w.Pos(start.Pos()), fmt.Sprint(nLayouts))
 	// creation directories: values the output-dir field can hold, relative to Config.OutputDir
 	ctor := w.Func(pkgRel, "NewCPTVFileRecorder")
 	dirRel := map[string]bool{}
